@@ -2,6 +2,7 @@ SPECIFICATION TraceSpec
 CONSTANTS
   Proc = {"s1", "s2", "s3"}
   CloneSeq <- Clones2
+  MaxCancels = 3
   Defect_CheckThenClone = FALSE
   Defect_UnlockedJoin = FALSE
   Defect_SplitDrop = FALSE
